@@ -13,8 +13,8 @@ for d in seeded/*/; do
   [ -n "${1:-}" ] && [ "$1" != "$name" ] && continue
   checks=$(python3 -c "import json;print(' '.join(json.load(open('$d/meta.json'))['detected_by_checks']))")
   if [ -z "$checks" ]; then echo "$name: recorded as not detected, skipped"; continue; fi
-  if ! git -C /repo apply --check $d/patch.diff 2>/dev/null; then echo "$name: patch no longer applies to this tree (the code it changes was repaired since), skipped"; continue; fi
-  git -C /repo apply $d/patch.diff
+  if ! git -C /repo apply --check /verif/$d/patch.diff 2>/dev/null; then echo "$name: patch no longer applies to this tree (the code it changes was repaired since), skipped"; continue; fi
+  git -C /repo apply /verif/$d/patch.diff
   hit=""
   for c in $checks; do
     if ./bin/yqv check $c --tier quick 2>&1 | grep -q "^VIOLATION"; then hit="$hit $c"; fi
